@@ -79,14 +79,21 @@ class Region:
 
 class IrSem:
     def __init__(self, module, ptr_bits=32, ext_results=(), max_steps=400, max_depth=3, init_globals=None,
-                 buffers=None, layout=None):
+                 buffers=None, layout=None, ext_handlers=None, big_buffers=None):
         """init_globals: {variable name: list of byte values (ints / SymInt)} overriding/defining initial
         contents (default: Variable.value if present, else zeros).  buffers: {name: list of bytes}: extra
         caller-owned regions (returned addresses via self.buf_addr[name]).  layout: optional
         {global or buffer name: address}: place these regions at the given addresses (the address map is
         the implementation's choice; a check may evaluate the reference under the map of the code under
-        test); must not overlap each other or the stack area."""
+        test); must not overlap each other or the stack area.
+        ext_handlers: {external function name: callable(list of argument terms) -> result term / None}: calls to
+        these externals are executed by the callable (e.g. a runtime library run by the harness) instead of
+        being recorded in the trace; exceptions of the callable propagate.
+        big_buffers: {name: (address, size, {offset: byte})}: a caller-owned region of `size` bytes at `address`
+        (kind "bigbuffer": zero except the listed bytes; not part of visible_memory(), read it through
+        self.mem)."""
         layout = layout or {}
+        self.ext_handlers = dict(ext_handlers or {})
         self.m = module
         self.pb = ptr_bits
         self.ext_results = list(ext_results)
@@ -139,7 +146,13 @@ class IrSem:
                 self.mem = z3.Store(self.mem, z3.BitVecVal(a + k, ptr_bits), bvv(b, 8))
             a = nxt if nxt is not None else a + len(data)
         assert a < STACK_BASE
-        if layout:
+        for name, (base, size, data) in (big_buffers or {}).items():
+            assert base >= STACK_BASE + 0x8000 and base + size <= (1 << ptr_bits)
+            self.buf_addr[name] = base
+            self.regions.append(Region(name, base, size, "bigbuffer"))
+            for k, b in sorted(data.items()):
+                self.mem = z3.Store(self.mem, z3.BitVecVal(base + k, ptr_bits), bvv(b, 8))
+        if layout or big_buffers:
             spans = sorted((r.base, r.base + r.size) for r in self.regions)
             assert all(x[1] <= y[0] for x, y in zip(spans, spans[1:])), "layout: overlapping regions"
             assert all(hi <= STACK_BASE or lo >= STACK_BASE + 0x8000 for lo, hi in spans), "layout: region in stack area"
@@ -343,6 +356,12 @@ class IrSem:
                     raise Unsupported("indirect call through a non-constant pointer")
             if ck in ("Function", "Procedure"):
                 r = self.call(callee, args, depth + 1)
+            elif callee.name in self.ext_handlers:
+                r = self.ext_handlers[callee.name](args)
+                if k == "FunctionCall":
+                    if r is None:
+                        raise Unsupported("external handler returned no value")
+                    r = bvv(r, bits_of(ins.ty, pb))
             else:
                 self.trace.append((callee.name, [z3.simplify(a) for a in args]))
                 r = None
